@@ -507,6 +507,21 @@ def _mech_derive(s):
 
 
 def case_derive(env, s):
+    """Every derivation is made twice: derived key material is a function of the request (the
+    client gets nothing back that would let it repeat a derivation the server randomised, e.g. an
+    initialisation vector the server chose)."""
+    out = _case_derive(env, s)
+    got = getattr(out, "got", None)
+    if got is not None:
+        again = getattr(_case_derive(env, s), "got", None)
+        if again is not None and bytes(again) != bytes(got):
+            out.judged = True
+            out.fail("not-a-function-of-the-request", "same request, two results: %s / %s"
+                     % (_short(got), _short(again)))
+    return out
+
+
+def _case_derive(env, s):
     H, E = _mods()
     out = Out("derive", _mech_derive(s), s["lvl"])
     m, L = s["method"], s["len"]
@@ -527,7 +542,9 @@ def case_derive(env, s):
                 encryption_algorithm=en(E.CryptographicAlgorithm, enc.get("alg")),
                 cipher_mode=en(E.BlockCipherMode, enc.get("mode")),
                 padding_method=en(E.PaddingMethod, enc.get("pad")),
-                iv_nonce=hx(enc.get("iv")))
+                # no Initialization Vector in the request: the server hands over b"" (None would
+                # ask the crypto engine to choose one, which its only caller never does)
+                iv_nonce=hx(enc.get("iv")) if enc.get("iv") is not None or m != "ENCRYPT" else b"")
         except Exception:
             return out.rejected()
         if got is None:
@@ -576,6 +593,7 @@ def case_derive(env, s):
         exact = True
         if otype == "SymmetricKey" and sec.get("len") not in (None, 8 * L):
             out.fail("length-attribute", "requested %d bits, key block says %s" % (8 * L, sec.get("len")))
+    out.got = got
     try:
         want = _derive_ref(s)
     except Exception:
@@ -1087,6 +1105,11 @@ def build_cells(tier):
             for mode, pad, lc, Lc in P(MODES7, PADS3, ["b", "b+1"], ["1", "full", "beyond"]):
                 add({"k": "derive", "lvl": lvl, "method": "ENCRYPT", "alg": alg, "mode": mode,
                      "pad": pad, "lc": lc, "Lc": Lc})
+            for mode in MODES7:
+                if alg != "RC4" and mode in R.IV_MODES:
+                    # the optional Initialization Vector left out where the mode wants one
+                    add({"k": "derive", "lvl": lvl, "method": "ENCRYPT", "alg": alg, "mode": mode,
+                         "pad": "PKCS5", "lc": "b", "Lc": "full", "ivc": "none"})
     # ---- RFC 3394 wrapping
     for lvl in "ds":
         for kbits, mlen in P([128, 192, 256], [16, 24, 32, 40, 8, 20]):
@@ -1209,7 +1232,7 @@ def complete(cell, draw, free=False):
             bits = draw(st.sampled_from(R.key_sizes(alg)))
             klen = bits // 8
             e = {"alg": alg, "mode": cell["mode"], "pad": cell["pad"]}
-            if alg != "RC4" and cell["mode"] in R.IV_MODES:
+            if alg != "RC4" and cell["mode"] in R.IV_MODES and cell.get("ivc") != "none":
                 ivn = 12 if cell["mode"] == "GCM" else bs
                 e["iv"] = draw(st.binary(min_size=ivn, max_size=ivn)).hex()
             s["enc"] = e
